@@ -5,16 +5,19 @@
 // and reports the abstract frame list of stream 1.
 //
 // input : [method bufsz hop script]
-//            method 0 = GET, 1 = HEAD ; bufsz = handlerChunkWriteSize (read from the implementation through the hook)
-//            hop    = sorted keys of the HopHeaders map (read from the implementation through the hook)
-//            script = list of ops  [1 k v] Header().Set(k,v)   [2 k v] Header().Add(k,v)   [3 code] WriteHeader(code)
-//                                  [4 bytes rep] Write(bytes repeated rep times)            [5] Flush()
+//
+//	method 0 = GET, 1 = HEAD ; bufsz = handlerChunkWriteSize (read from the implementation through the hook)
+//	hop    = sorted keys of the HopHeaders map (read from the implementation through the hook)
+//	script = list of ops  [1 k v] Header().Set(k,v)   [2 k v] Header().Add(k,v)   [3 code] WriteHeader(code)
+//	                      [4 bytes rep] Write(bytes repeated rep times)            [5] Flush()
+//
 // output: [frames results]
-//            frames  = list of  [1 end [[name value] ...]] (HEADERS, CONTINUATION merged)  |  [2 end bytes] (DATA)
-//                               |  [3 code] (RST_STREAM)
-//            results = one 0/1 per Write op (1 = Write returned an error)
-//          the values of `date` and `content-type` fields are projected to the empty string on both sides
-//          (clock and content sniffing are outside the model).
+//
+//	  frames  = list of  [1 end [[name value] ...]] (HEADERS, CONTINUATION merged)  |  [2 end bytes] (DATA)
+//	                     |  [3 code] (RST_STREAM)
+//	  results = one 0/1 per Write op (1 = Write returned an error)
+//	the values of `date` and `content-type` fields are projected to the empty string on both sides
+//	(clock and content sniffing are outside the model).
 package main
 
 import (
@@ -22,6 +25,7 @@ import (
 	"io"
 	"net"
 	"sort"
+	"strconv"
 	"sync"
 	"time"
 
@@ -212,7 +216,7 @@ var hop = hopList()
 var plainKeys = []string{"X-A", "x-b", "Server", "cache-control", "X-UPPER-Case", "Set-Cookie", "Etag", "Vary", "Foo", "bar", "Grpc-Status", "grpc-message", "X-Md5", "Zz"}
 var hopKeys = []string{"Connection", "connection", "Keep-Alive", "Proxy-Connection", "Upgrade", "Transfer-Encoding", "transfer-encoding", "Proxy-Authenticate", "Proxy-Authorization", "Te"}
 var specialKeys = []string{"Content-Length", "content-length", "Content-Type", "Date", "Trailer"}
-var badKeys = []string{"bad key", "", "a:b", "X(1)", "caf\x7f", "x\ty"}
+var badKeys = []string{"bad key", "", "a:b", "X(1)", "caf\x7f", "x\ty", "\u212aeep-Alive", "\u212aeep-alive", "caf\u00c9", "X-\xff", "\u212a"}
 var trailerNames = []string{"Foo", "bar", "Grpc-Status", "grpc-message", "X-Md5", "Zz", "X-T1", "x-t2"}
 var statuses = []int{200, 200, 200, 201, 204, 304, 404, 500, 301, 206, 100, 101, 199, 299, 999}
 var clens = []string{"0", "1", "5", "10", "100", "4096", "-1", "-0", "+7", "abc", "", "12x", " 3", "9223372036854775807", "9223372036854775808", "007"}
@@ -305,6 +309,76 @@ func gen(r *hv.Rng, i int, tier string) (string, hv.Val) {
 	class := "get"
 	if method == 1 {
 		class = "head"
+	}
+	wr := func(n int) hv.Val { // a Write of n bytes
+		if n < 0 {
+			n = 0
+		}
+		if n <= 40 {
+			return hv.L{hv.I(4), hv.B(r.Bytes(n)), hv.I(1)}
+		}
+		return hv.L{hv.I(4), hv.B(r.Bytes(1)), hv.I(n)}
+	}
+	maybeFlush := func() {
+		if r.Chance(1, 3) {
+			script = append(script, hv.L{hv.I(5)})
+		}
+	}
+	switch r.Intn(16) {
+	case 0: // declared Content-Length against the bytes written: exactly, one less, one more
+		n := r.Range(1, 12)
+		script = append(script, hv.L{hv.I(1), hv.S("Content-Length"), hv.S(strconv.Itoa(n))})
+		if r.Chance(1, 3) {
+			script = append(script, hv.L{hv.I(3), hv.I(200)})
+		}
+		maybeFlush()
+		left := n + r.Range(-1, 1)
+		for left > 0 {
+			k := r.Range(1, left)
+			script = append(script, wr(k))
+			left -= k
+			maybeFlush()
+		}
+		if r.Chance(1, 2) {
+			script = append(script, wr(r.Range(0, 2)))
+		}
+		return class + "-clen-boundary", hv.L{hv.I(method), hv.I(bufsz), hop, script}
+	case 1: // the bufio.Writer boundary reached by two or three writes
+		a := []int{1, 100, bufsz - 1, bufsz, bufsz / 2}[r.Intn(5)]
+		script = append(script, wr(a))
+		maybeFlush()
+		script = append(script, wr(bufsz-a+r.Range(-1, 1)))
+		maybeFlush()
+		if r.Chance(1, 2) {
+			script = append(script, wr([]int{0, 1, bufsz, bufsz + 1}[r.Intn(4)]))
+		}
+		return class + "-bufio-boundary", hv.L{hv.I(method), hv.I(bufsz), hop, script}
+	case 2: // trailers: duplicates, forbidden names, some set, some only promoted, late declarations
+		names := []string{"Foo", "bar", "Zz", "X-Md5", "Content-Length", "trailer", "Foo"}
+		decl := ""
+		nd := r.Range(1, 4)
+		for j := 0; j < nd; j++ {
+			if j > 0 {
+				decl += ","
+			}
+			decl += r.Pick(names)
+		}
+		script = append(script, hv.L{hv.I(1 + r.Intn(2)), hv.S("Trailer"), hv.S(decl)})
+		if r.Chance(1, 2) {
+			script = append(script, hv.L{hv.I(2), hv.S("trailer"), hv.S(r.Pick(names))})
+		}
+		script = append(script, wr(r.Range(0, 3)))
+		maybeFlush()
+		for j := r.Intn(4); j > 0; j-- {
+			script = append(script, hv.L{hv.I(1 + r.Intn(2)), hv.S(r.Pick(names[:4])), hv.S(genValue(r))})
+		}
+		if r.Chance(1, 2) {
+			script = append(script, hv.L{hv.I(1), hv.S("Trailer:" + r.Pick([]string{"aa", "Zz", "late"})), hv.S(genValue(r))})
+		}
+		if r.Chance(1, 3) { // declared after the header was sent: ignored
+			script = append(script, hv.L{hv.I(2), hv.S("Trailer"), hv.S("Late")}, hv.L{hv.I(1), hv.S("Late"), hv.S("x")})
+		}
+		return class + "-trailers", hv.L{hv.I(method), hv.I(bufsz), hop, script}
 	}
 	usedPrefix := map[string]bool{}
 	addHdr := func(after bool) {
